@@ -240,6 +240,12 @@ def judge(prop, f, impl, model, spec):
             judge_nodeset(j, f, impl, model, spec)
         else:
             judge_value(j, f, impl, model, spec)
+    elif prop == "C15" and kind == "growth":
+        if impl.startswith("growth:exponential"):
+            j.viol = "drawing the nodes of *P…P costs exponentially more with every predicate P (extra = hex(P);n1;n2): %s — Select does not terminate in practice (out of memory) for a few dozen predicates" % impl[7:]
+        elif impl not in ("growth:ok", "cerr"):
+            j.viol = "growth measurement failed: " + impl
+        j.nontrivial = True
     elif prop == "C15":
         if is_crash(impl):
             j.viol = "Select/Evaluate failed with a Go runtime error / did not terminate / undocumented type: " + impl
